@@ -165,6 +165,14 @@ class NArr:
         if isinstance(ix, (int, Fraction)) and len(self.shape) == 1:
             self.data[self._norm(ix, len(self.data))] = val
             return
+        if isinstance(ix, (int, Fraction)) and len(self.shape) == 2:
+            # a whole row
+            n = self.shape[1]
+            row = list(val) if isinstance(val, list) else [val] * n
+            if len(row) != n:
+                raise Raised("ValueError: shape mismatch in row store")
+            self.data[self._norm(ix, len(self.data))] = row
+            return
         if isinstance(ix, NArr) and len(self.shape) == 1:
             idx = _flat(ix.data)
             vals = _flat(val) if isinstance(val, list) else [val] * len(idx)
@@ -301,6 +309,11 @@ class NArr:
                     return NArr([fn(c) for c in cols])
                 if len(self.shape) == 1 and ax == 0:
                     return fn(list(self.data))
+                if len(self.shape) == 3 and ax == 1 and self.data and \
+                        name in ("sum", "max", "min", "any", "all"):
+                    # reduce the middle axis of each leading slice
+                    return NArr([[fn(list(c)) for c in zip(*blk)]
+                                 for blk in self.data])
                 raise Unsupported(f"{name} over axis {ax}")
             return PyFunc(red)
         if name == "dtype":
@@ -470,6 +483,15 @@ def hook(interp, name, args, kwargs, node):
     if name in ("numpy.ones", "numpy.zeros") and len(args) >= 1 and \
             isinstance(a0, (int, Fraction)):
         return NArr([1 if name == "numpy.ones" else 0] * int(a0))
+    if name in ("numpy.ones", "numpy.zeros") and len(args) >= 1 and \
+            isinstance(a0, tuple) and a0 and all(
+                isinstance(x, (int, Fraction)) for x in a0):
+        v = 1 if name == "numpy.ones" else 0
+
+        def build(shp):
+            return [build(shp[1:]) for _ in range(int(shp[0]))] \
+                if len(shp) > 1 else [v] * int(shp[0])
+        return NArr(build(a0))
     if name == "numpy.count_nonzero" and isinstance(a0, NArr) and \
             len(args) == 1 and not kwargs:
         return sum(1 for v in _flat(a0.data) if v)
